@@ -38,6 +38,10 @@ pub trait Model: Encode + Decode + Clone + PartialEq + std::fmt::Debug {
     fn roundtrip() -> bool {
         true
     }
+    /// sum of `size_of` over this type and the types nested in it (for the allocation monitor)
+    fn alloc_coeff() -> usize {
+        std::mem::size_of::<Self>()
+    }
     /// name of the Rust type (for reports)
     fn rust_name() -> String {
         std::any::type_name::<Self>().replace("ssz_verif_harness::", "").replace("alloc::", "")
@@ -208,6 +212,9 @@ fn gen_len(g: &mut Rng, size: usize) -> usize {
 }
 
 impl<T: Model> Model for Vec<T> {
+    fn alloc_coeff() -> usize {
+        std::mem::size_of::<Self>() + T::alloc_coeff()
+    }
     fn strict() -> bool {
         T::strict()
     }
@@ -227,6 +234,9 @@ impl<T: Model> Model for Vec<T> {
 }
 
 impl<T: Model, const N: usize> Model for SmallVec<[T; N]> {
+    fn alloc_coeff() -> usize {
+        std::mem::size_of::<Self>() + T::alloc_coeff()
+    }
     fn strict() -> bool {
         T::strict()
     }
@@ -246,6 +256,9 @@ impl<T: Model, const N: usize> Model for SmallVec<[T; N]> {
 }
 
 impl<T: Model + Ord> Model for BTreeSet<T> {
+    fn alloc_coeff() -> usize {
+        std::mem::size_of::<Self>() + T::alloc_coeff()
+    }
     fn strict() -> bool {
         false
     }
@@ -265,6 +278,9 @@ impl<T: Model + Ord> Model for BTreeSet<T> {
 }
 
 impl<K: Model + Ord, V: Model> Model for BTreeMap<K, V> {
+    fn alloc_coeff() -> usize {
+        std::mem::size_of::<Self>() + K::alloc_coeff() + V::alloc_coeff()
+    }
     fn strict() -> bool {
         false
     }
@@ -293,6 +309,9 @@ impl<K: Model + Ord, V: Model> Model for BTreeMap<K, V> {
 }
 
 impl<T: Model> Model for Option<T> {
+    fn alloc_coeff() -> usize {
+        std::mem::size_of::<Self>() + T::alloc_coeff()
+    }
     fn strict() -> bool {
         T::strict()
     }
@@ -318,6 +337,9 @@ impl<T: Model> Model for Option<T> {
 }
 
 impl<T: Model> Model for Arc<T> {
+    fn alloc_coeff() -> usize {
+        std::mem::size_of::<Self>() + T::alloc_coeff()
+    }
     fn strict() -> bool {
         T::strict()
     }
@@ -338,6 +360,9 @@ impl<T: Model> Model for Arc<T> {
 macro_rules! impl_tuple {
     ($(($idx:tt) -> $T:ident),+) => {
         impl<$($T: Model),+> Model for ($($T,)+) {
+            fn alloc_coeff() -> usize {
+                std::mem::size_of::<Self>() $(+ $T::alloc_coeff())+
+            }
             fn strict() -> bool {
                 true $(&& $T::strict())+
             }
@@ -453,6 +478,9 @@ macro_rules! container {
                 let v: Vec<String> = vec![$(<$t as $crate::model::Model>::desc()),*];
                 format!("C({})", v.join(","))
             }
+            fn alloc_coeff() -> usize {
+                std::mem::size_of::<Self>() $(+ <$t as $crate::model::Model>::alloc_coeff())*
+            }
             fn strict() -> bool {
                 true $(&& <$t as $crate::model::Model>::strict())*
             }
@@ -482,6 +510,9 @@ macro_rules! union_enum {
             fn desc() -> String {
                 let v: Vec<String> = vec![$(<$t as $crate::model::Model>::desc()),+];
                 format!("N({})", v.join(","))
+            }
+            fn alloc_coeff() -> usize {
+                std::mem::size_of::<Self>() $(+ <$t as $crate::model::Model>::alloc_coeff())+
             }
             fn strict() -> bool {
                 true $(&& <$t as $crate::model::Model>::strict())+
@@ -513,6 +544,9 @@ macro_rules! transparent_enum {
             fn desc() -> String {
                 let v: Vec<String> = vec![$(<$t as $crate::model::Model>::desc()),+];
                 format!("E({})", v.join(","))
+            }
+            fn alloc_coeff() -> usize {
+                std::mem::size_of::<Self>() $(+ <$t as $crate::model::Model>::alloc_coeff())+
             }
             fn strict() -> bool {
                 false
@@ -567,6 +601,9 @@ macro_rules! transparent_struct {
         impl $crate::model::Model for $name {
             fn desc() -> String {
                 <$t as $crate::model::Model>::desc()
+            }
+            fn alloc_coeff() -> usize {
+                std::mem::size_of::<Self>() + <$t as $crate::model::Model>::alloc_coeff()
             }
             fn strict() -> bool {
                 <$t as $crate::model::Model>::strict()
